@@ -244,9 +244,10 @@ Definition sys_step (sc : scfg) (hc : hcfg) (s : sys) (l : slabel) : option sys 
     then Some (mkSys h now (sy_last s) (sy_err s) (sy_pc s) (sy_accepted s) (str_del id (sy_running s))
                      (sy_results s ++ [(id, o)]) (sy_starts s) (sy_reports s) (sy_retry s))
     else
-      (* unknown work id: the worker reports without ever starting a work function *)
+      (* unknown work id: the worker reports without ever starting a work function ... *)
       match o, find (fun x => String.eqb (fst x) id) (sy_accepted s) with
-      | ONotFound, Some _ =>
+      | ONotFound, Some _
+      | OCanceled, Some _ =>   (* ... or: the dispatch context was cancelled between the fetch and the start *)
         Some (mkSys h now (sy_last s) (sy_err s) (sy_pc s) (remove_first id (sy_accepted s)) (sy_running s)
                     (sy_results s ++ [(id, o)]) (sy_starts s) (sy_reports s) (sy_retry s))
       | _, _ => None
